@@ -14,7 +14,8 @@ META = {
              ">= 1 non-empty row (Call/LoadFunc: polymorphic signature)"),
     "required": ["monitor:outer", "monitor:inner", "monitor:port-kind", "monitor:num_out", "monitor:program-port", "monitor:retyped",
                  "monitor:graph-port-type", "monitor:order-port", "feature:arity-changing-instantiation",
-                 "feature:empty-row", "feature:linear"] + [f"cases:{k}" for k in (
+                 "feature:empty-row", "feature:linear", "monitor:history-port-queries", "feature:history-index-reuse",
+                 "monitor:graph-port-type-on-recycled-index"] + [f"cases:{k}" for k in (
                      "Input", "Output", "DFG", "CFG", "DataflowBlock", "ExitBlock", "Conditional", "Case",
                      "TailLoop", "Tag", "TagSugar", "MakeTuple", "UnpackTuple", "Noop", "CallIndirect",
                      "Call", "LoadFunc", "LoadConst", "Const", "FuncDefn", "FuncDecl", "Custom", "ExtOp")],
@@ -381,6 +382,47 @@ def check_case(ctx, c, stratum="op"):
                 bad("graph-port-type", off, want[1], None if pt is None else dump_t(pt))
 
 
+def check_history(ctx, hist, stratum="history"):
+    """The graph-level port queries under a mutation history with deletions and index re-use: after every step, for
+    every live node, Hugr.port_kind / port_type of each of its ports is what the operation it holds NOW says (every
+    operation a history creates has its own four input and four output types)."""
+    from hugr import tys
+    from vf.gen.histories import Exec, hist_sig
+
+    seen = {"reuse": False, "idx": set()}
+
+    def on_step(ex, i, st):
+        h = ex.h
+        for n in h:
+            op = h[n].op
+            name = getattr(op, "op_name", "")
+            if not name.startswith("op") or "_" not in name:
+                continue
+            if st[0] == "add_node" and n.idx in seen["idx"] and n.idx == ex.handles[-1].idx:
+                seen["reuse"] = True
+            k = int(name.split("_")[1])
+            ins, outs = hist_sig(k)
+            ctx.count("monitor:history-port-queries")
+            for d, row, mk in (("out", outs, n.out), ("in", ins, n.inp)):
+                for off, want in enumerate(row):
+                    p = mk(off)
+                    try:
+                        kd, pt = h.port_kind(p), h.port_type(p)
+                    except Exception as e:  # noqa: BLE001
+                        ctx.disc(None, "history-port-query-raises", [d, off], repr(want), f"{type(e).__name__}: {e}"[:150],
+                                 stratum=stratum, case=hist)
+                        continue
+                    if not isinstance(kd, tys.ValueKind) or kd.ty != want or pt != want:
+                        ctx.disc(None, "history-port-type", [i, st[0], n.idx, d, off], repr(want),
+                                 [repr(kd), repr(pt)], stratum=stratum, case=hist)
+        seen["idx"] |= {n.idx for n in h}
+
+    Exec(on_step).run(hist)
+    if seen["reuse"]:
+        ctx.feat("feature:history-index-reuse")
+    return seen["reuse"]
+
+
 def features(ctx, c):
     def rows(x):
         if isinstance(x, dict):
@@ -542,6 +584,13 @@ def run(ctx):
                         force=("rowpoly-call",) if i % 4 == 0 else ())
         nn = ctx.guard("program", p, check_program_ports, ctx, p)
         ctx.case("program", p, nn is not None and nn >= 6)
+    from vf.gen.histories import gen_history
+
+    for i in ctx.mine(ctx.n(400, 20000)):
+        r = ctx.rng("history", i)
+        hist = gen_history(r, max_steps=30, metadata=False)
+        re_ = ctx.guard("history", hist, check_history, ctx, hist)
+        ctx.case("history", hist, bool(re_))
     from vf.gen.types import Gen
 
     for i in ctx.mine(ctx.n(800, 100000)):
@@ -565,5 +614,7 @@ def replay(ctx, rec):
         check_retyped(ctx, rec["case"])
     elif rec.get("stratum") == "program":
         check_program_ports(ctx, rec["case"])
+    elif rec.get("stratum") == "history":
+        check_history(ctx, rec["case"])
     else:
         check_case(ctx, rec["case"])
